@@ -581,7 +581,7 @@ fn predict_lru(
     pre: &Snapshot,
     op: Op,
     est: &[u8],
-) -> (Vec<u8>, Option<bool>) {
+) -> (Vec<u8>, Option<bool>, Vec<u8>) {
     // residents ordered from least to most recently used by the model's clock
     let mut r: Vec<(u8, u32)> = pre.entries.iter().map(|e| (e.key as u8, e.weight)).collect();
     r.sort_by_key(|(k, _)| m.keys[*k as usize].use_seq);
@@ -613,6 +613,7 @@ fn predict_lru(
         evict_excess(&mut r);
     }
     let mut decision = None;
+    let lru_before: Vec<u8> = r.iter().map(|x| x.0).collect();
     match op {
         Op::Ins(k, w) => {
             let pw = cfg.pw(weight_of(w));
@@ -678,7 +679,7 @@ fn predict_lru(
         purge(&mut r, m_after);
         evict_excess(&mut r);
     }
-    (r.into_iter().map(|x| x.0).collect(), decision)
+    (r.into_iter().map(|x| x.0).collect(), decision, lru_before)
 }
 
 /// What one maintenance pass of the concurrent cache must leave behind, computed from the
@@ -1401,7 +1402,7 @@ pub fn step(cfg: &Cfg, sut: &mut Sut, m: &mut Model, pre: &Snapshot, op: Op, has
 
     // ---- C12 / C13: recency order, victims, admission decision
     if cfg.lru && (u || cfg.autosync) {
-        let (want, decision) = predict_lru(cfg, &m_pre, m, pre, op, &est);
+        let (want, decision, lru_before) = predict_lru(cfg, &m_pre, m, pre, op, &est);
         let got: Vec<u8> = post.probation.nodes.iter().map(|n| n.key as u8).collect();
         // a dead entry that maintenance failed to purge is reported by the release
         // clause (C11); the recency comparison would only repeat it
@@ -1418,6 +1419,16 @@ pub fn step(cfg: &Cfg, sut: &mut Sut, m: &mut Model, pre: &Snapshot, op: Op, has
             );
             if let (Op::Ins(k, _), Some(dec)) = (op, decision) {
                 if gs.contains(&k) != dec {
+                    // whatever the decision should have been: if the newcomer is in, the
+                    // residents that made room must be the least recently used ones
+                    // (maintenance-after-every-op, no expiry: nothing else removes entries)
+                    if gs.contains(&k) && !cfg.has_expiry() {
+                        let gone: Vec<u8> = lru_before.iter().cloned().filter(|x| *x != k && !gs.contains(x)).collect();
+                        let prefix: Vec<u8> = lru_before.iter().cloned().filter(|x| *x != k).take(gone.len()).collect();
+                        if gone != prefix {
+                            viol.push(v("C12", format!("{kdn}:victims-not-an-lru-prefix"), d.clone()));
+                        }
+                    }
                     viol.push(v("C13", format!("{kdn}:admission-decision:predicted={dec}"), d));
                 } else if !dec {
                     viol.push(v("C13", format!("{kdn}:rejection-touched-residents"), d));
